@@ -23,7 +23,8 @@ import sys
 from harness import common, scriptlib as sl
 
 PROP = 'C04'
-THEOREMS = ['C04_trace', 'C04_terminates', 'C04_const', 'C04_sum', 'C04_fixed_len', 'C04_edit_distance']
+THEOREMS = ['C04_trace', 'C04_terminates', 'C04_const', 'C04_sum', 'C04_fixed_len', 'C04_edit_distance', 'C04_string',
+            'C04_lists', 'C04_lists_trace']
 MODELS = ['theories/MachineSpec.vo', 'theories/MachineModel.vo']
 HEADER = ('From Coq Require Import ZArith List Bool.\nRequire Import GT.PyBase GT.Data GT.MachineSpec.\n'
           'Import ListNotations.\nOpen Scope Z_scope.\n')
@@ -199,9 +200,9 @@ def impl_trace(item):
     root_id = None
     ta = tb = None
     try:
-        a, b = _build(item)
+        a, b = _build(item) if mode != 'sed' else (None, None)
         try:
-            ta, tb = sl.ser_tree(a), sl.ser_tree(b)
+            ta, tb = (sl.ser_tree(a), sl.ser_tree(b)) if mode != 'sed' else (None, None)
         except ValueError:
             ta = tb = None
         if mode == 'active':
@@ -211,6 +212,16 @@ def impl_trace(item):
             while e.tighten_bounds():
                 if MON.steps > MAX_STEPS:
                     raise RuntimeError('too many steps')
+        elif mode == 'sed':
+            # graphtage.string_edit_distance(s, t) used directly (an EditDistance that no StringNode.edits() shortcut guards)
+            import graphtage as g
+            e = g.string_edit_distance(item['a'], item['b'])
+            root_id = id(e)
+            MON.entry(e)
+            while e.tighten_bounds():
+                if MON.steps > MAX_STEPS:
+                    raise RuntimeError('too many steps')
+            ta = tb = None
         elif mode == 'passive':
             a.diff(b)
             a2, b2 = _build(item)
@@ -357,7 +368,7 @@ def gen_items(tier, rng):
         for o in (('auto', 'on'), ('none', 'off'), ('match', 'same')):
             items.append({'a': a, 'b': b, 'opts': list(o), 'mode': 'active'})
     q = tier == 'quick'
-    n_list, n_doc, n_pass, n_kvp, n_search = (300, 180, 120, 50, 25) if q else (2500, 1500, 800, 300, 150)
+    n_list, n_doc, n_pass, n_kvp, n_search = (300, 180, 120, 50, 25) if q else (2000, 1200, 600, 300, 150)
     for k in range(n_list):            # the modelled fragment: correspondence is decided on these
         r = rng.random()
         if r < 0.35:
@@ -387,6 +398,8 @@ def gen_items(tier, rng):
         kb = ka if k % 3 == 0 else rng.choice(sl.KEYS)
         items.append({'a': a, 'b': b, 'opts': ['auto', ['on', 'off', 'same'][k % 3]], 'mode': 'active',
                       'kvp': [ka, kb, True]})
+    for st_, tt_ in [('a', 'a'), ('', ''), ('abc', 'abc'), ('ab', ''), ('', 'ab'), ('abc', 'axc'), ('kitten', 'sitting')]:
+        items.append({'a': st_, 'b': tt_, 'opts': ['auto', 'on'], 'mode': 'sed'})
     for k in range(n_search):          # IterativeTighteningSearch / PossibleEdits over alternative edits
         a = sl.gen_value(rng, 2, 3)
         bs = [sl.mutate(rng, a) for _ in range(rng.randint(1, 4))]
